@@ -748,12 +748,16 @@ static void add_tasks(std::vector<Task>& tasks, const Config& cfg, const bool q,
   // pairs outside the size bound of the menu, chosen for the regime they reach: the lighter operand (by cumulative weight) carries a
   // partial item AND the heaviest weight, and the merged C stays below k (needs k >= 4 with weights from {1,2,4})
   {
-    const int sp[][2][6] = {
+    const int sp[5][2][6] = {
       {{4, 0, 0, 0, 0, -1}, {4, 0, 1, -1, -1, -1}},     // k4 [1,1,1,1] <-> k4 [1,2]     W = 4 + 3, wmax 2, C = 3.5
       {{4, 0, 0, 0, 0, -1}, {4, 1, 0, -1, -1, -1}},     // k4 [1,1,1,1] <-> k4 [2,1]
       {{5, 1, 1, 1, 1, -1}, {4, 2, 1, -1, -1, -1}},     // k5 [2,2,2,2] <-> k4 [4,2]     W = 8 + 6, wmax 4, C = 3.5, unequal k
+      {{2, 0, 0, 0, -1, -1}, {2, 0, 1, -1, -1, -1}},    // k2 [1,1,1] <-> k2 [1,2]: the merged-in sketch carries a partial item and the result is k-bound (C = k)
+      {{3, 0, 0, 0, 0, -1}, {3, 1, 0, -1, -1, -1}},     // k3 [1,1,1,1] <-> k3 [2,1]
     };
-    for (int i = 0; i < (q ? 2 : 3); ++i) for (int dir = 0; dir < 2; ++dir) {
+    const int order[5] = {0, 3, 1, 4, 2};
+    for (int oi = 0; oi < (q ? 3 : 5); ++oi) for (int dir = 0; dir < 2; ++dir) {
+      const int i = order[oi];
       Operand A, B; Operand* o[2] = {&A, &B};
       for (int s2 = 0; s2 < 2; ++s2) { o[s2]->k = sp[i][s2 ^ dir][0]; for (int j = 1; j < 6 && sp[i][s2 ^ dir][j] >= 0; ++j) o[s2]->w.push_back(sp[i][s2 ^ dir][j]); }
       Task t; t.name = pre + "merge-special/" + A.label() + "<-" + B.label();
